@@ -187,6 +187,7 @@ func (tk *task) run(chGlobals map[string]lua.LValue, shared map[string]*lua.Func
 		if out.Escaped != "" {
 			tk.escaped = out.Escaped
 		}
+		h.L.Close() // states are closed while other tasks are still running
 	}
 }
 
@@ -275,6 +276,33 @@ end
 emit("consumer done", n)
 `
 
+// a consumer that polls with a select that has a default case before it falls back to a blocking receive
+const pollConsumerSrc = `local C = C
+local n, polls = 0, 0
+while true do
+  local idx, v, ok
+  if polls < POLLS then
+    polls = polls + 1
+    if DEFFIRST then
+      idx, v, ok = channel.select({"default"}, {"|<-", C})
+      if idx == 1 then idx = nil else idx = 1 end
+    else
+      idx, v, ok = channel.select({"|<-", C}, {"default"})
+      if idx == 2 then idx = nil end
+    end
+  else
+    ok, v = C:receive()
+    idx = 1
+  end
+  if idx then
+    if not ok then emit("closed", v) break end
+    n = n + 1
+    if type(v) == "table" then emit("got", v.tag, #v) else emit("got", v) end
+  end
+end
+emit("consumer done", n)
+`
+
 const selectConsumerSrc = `local C, C2 = C, C2
 local open1, open2 = true, true
 local n = 0
@@ -359,8 +387,9 @@ emit("after select", i, v, ok)
 while true do end
 `
 const blockedSendSrc = `local B = B
+for i = 1, CAP do B:send(i) end
 emit("before")
-B:send(1)
+B:send(0)
 emit("after send")
 while true do end
 `
@@ -389,6 +418,8 @@ local co = coroutine.wrap(function(a) local b = coroutine.yield(a + 1) return b 
 emit("life", s, co(1), co(4), string.format("%d", 7), (string.gsub("abc", "%a", "x")))
 local ok, e = pcall(error, "x", 0)
 emit("life-err", ok, e)
+local function deep(n, fail) if n <= 0 then if fail then error("deep") end return 0 end return 1 + deep(n - 1, fail) end
+emit("deep", deep(30, false), (pcall(deep, 25, true)), deep(5, false), deep(28, false))
 `
 
 func (e *Engine) Run(t *core.Tape, cfg *core.Config, st *core.Stats) *core.Violation {
@@ -414,13 +445,19 @@ func (e *Engine) Run(t *core.Tape, cfg *core.Config, st *core.Stats) *core.Viola
 		}
 		return o
 	}
+	cancelMode := e.prop == "C11"
 	newTask := func(kind taskKind, name, src string) *task {
 		tk := &task{id: len(sc.tasks), kind: kind, name: name, src: src, opts: mkOpts(), joined: make(chan struct{})}
+		if !cancelMode && kind != kLifecycle && t.Choose(3) == 0 {
+			// a context that is never done: channel operations take their context-aware paths, the interpreter its
+			// context-aware loop; nothing observable may change
+			tk.ctx = hostapi.NewSimContext()
+			st.Probe("task_with_undone_context")
+		}
 		sc.tasks = append(sc.tasks, tk)
 		return tk
 	}
 	globals := map[*task]map[string]lua.LValue{}
-	cancelMode := e.prop == "C11"
 
 	// --- compute tasks over shared prototypes ---
 	ncomp := t.Choose(3)
@@ -504,6 +541,14 @@ func (e *Engine) Run(t *core.Tape, cfg *core.Config, st *core.Stats) *core.Viola
 			desc = append(desc, fmt.Sprintf("task %d select consumer over chan%d, chan%d", tk.id, C.id, C2.id))
 		} else {
 			for i := 0; i < nc; i++ {
+				if t.Choose(3) == 0 {
+					tk := newTask(kConsumer, fmt.Sprintf("pollconsumer%d", i), pollConsumerSrc)
+					polls, first := 1+t.Choose(6), t.Bool()
+					globals[tk] = map[string]lua.LValue{"C": lua.LChannel(C.ch), "POLLS": lua.LNumber(polls), "DEFFIRST": lua.LBool(first)}
+					desc = append(desc, fmt.Sprintf("task %d %s on chan%d: %d polls with select+default (default first: %v), then blocking receives", tk.id, tk.name, C.id, polls, first))
+					st.Probe("poll_consumer")
+					continue
+				}
 				tk := newTask(kConsumer, fmt.Sprintf("consumer%d", i), consumerSrc)
 				globals[tk] = map[string]lua.LValue{"C": lua.LChannel(C.ch)}
 				desc = append(desc, fmt.Sprintf("task %d %s on chan%d", tk.id, tk.name, C.id))
@@ -536,13 +581,17 @@ func (e *Engine) Run(t *core.Tape, cfg *core.Config, st *core.Stats) *core.Viola
 		r.sendVals = []string{"t:nil"}
 		desc = append(desc, fmt.Sprintf("task %d refusal probes on chan%d", r.id, X.id))
 	case 3: // C11 workload C: a task blocks in a channel operation nobody serves; its context is fired
-		B := addChan(0)
+		B := addChan(t.Choose(3)) // unbuffered, or buffered: a send blocks once the buffer is full, a receive while it is empty
 		which := t.Choose(3)
 		src := []string{blockedRecvSrc, blockedSelectSrc, blockedSendSrc}[which]
 		tk := newTask(kBlocked, []string{"blocked-receive", "blocked-select", "blocked-send"}[which], src)
 		tk.ctx = hostapi.NewSimContext()
-		globals[tk] = map[string]lua.LValue{"B": lua.LChannel(B.ch)}
-		desc = append(desc, fmt.Sprintf("task %d %s on chan%d with a context that the scheduler fires while it is parked in the operation", tk.id, tk.name, B.id))
+		globals[tk] = map[string]lua.LValue{"B": lua.LChannel(B.ch), "CAP": lua.LNumber(B.cap)}
+		for j := 1; j <= B.cap; j++ {
+			tk.sendVals = append(tk.sendVals, fmt.Sprintf("n:%v", float64(j)))
+		}
+		st.Probe(fmt.Sprintf("blocked_on_capacity_%d", B.cap))
+		desc = append(desc, fmt.Sprintf("task %d %s on chan%d (cap %d) with a context that the scheduler fires while it is parked in the operation", tk.id, tk.name, B.id, B.cap))
 		st.Probe("blocked_" + tk.name)
 	}
 	if len(sc.tasks) < 2 {
@@ -628,7 +677,7 @@ func (e *Engine) Run(t *core.Tape, cfg *core.Config, st *core.Stats) *core.Viola
 				return fail("solo-equivalence", "task %d %s computed something else than it computes alone\nconcurrent:\n  %s\nsolo:\n  %s\nprogram:\n%s", tk.id, tk.name, strings.Join(tailS(got, 25), "\n  "), strings.Join(tailS(tk.soloTrace, 25), "\n  "), tk.src)
 			}
 		case kLifecycle:
-			one := "E:'life',2870,2,8,'7','xxx'|E:'life-err',false,'x'|--- state %d closed|full:7, 3.14|42|x|\"a b\",<hello> <world>,4,1-2-5-8,94,2,false,2"
+			one := "E:'life',2870,2,8,'7','xxx'|E:'life-err',false,'x'|E:'deep',30,false,5,28|--- state %d closed|full:7, 3.14|42|x|\"a b\",<hello> <world>,4,1-2-5-8,94,2,false,2"
 			want := fmt.Sprintf(one, 0) + "|" + fmt.Sprintf(one, 1) + "|" + fmt.Sprintf(one, 2)
 			if got := strings.Join(tk.trace, "|"); got != want || tk.err != "" {
 				return fail("solo-equivalence", "lifecycle task %d: trace %q error %q, want %q", tk.id, got, tk.err, want)
@@ -803,6 +852,7 @@ func (sc *sched) enabled(cancelMode bool) []choice {
 		case parkStart, parkStep, parkChanPost:
 			out = append(out, choice{tk: tk})
 		case parkChanPre:
+			before := len(out)
 			switch p.op {
 			case lua.VerifChanClose:
 				out = append(out, choice{tk: tk})
@@ -850,7 +900,8 @@ func (sc *sched) enabled(cancelMode bool) []choice {
 					out = append(out, choice{tk: tk})
 				}
 			}
-			if tk.kind == kBlocked && !tk.fired {
+			if tk.kind == kBlocked && !tk.fired && len(out) == before {
+				// the operation cannot complete (nobody serves the channel): the context may fire now
 				out = append(out, choice{tk: tk, fire: true})
 			}
 		}
@@ -1043,10 +1094,15 @@ func (sc *sched) applySolo(tk *task, pre, post pendingOp, fail func(string, stri
 				sc.st.Probe("select_multi_ready")
 			}
 			if idx < 0 || idx >= pre.ncases {
-				if pre.hasDef {
-					return nil
-				}
 				return fail("select-unready-case", "task %d: select returned case %d of %d", tk.id, idx, pre.ncases)
+			}
+			if pre.hasDef && pre.chans[idx] == 0 && !pre.send[idx] {
+				// the default case: taken only when no other case can proceed
+				if nready > 0 {
+					return fail("select-unready-case", "task %d: select took its default case although %d receive case(s) were ready", tk.id, nready)
+				}
+				sc.st.Probe("select_default_taken")
+				return nil
 			}
 			if !sc.recvReady(pre, idx) {
 				return fail("select-unready-case", "task %d: select completed case %d, which was not ready", tk.id, idx)
